@@ -24,7 +24,7 @@ EXPLANATIONS = {
 AQ = r"^active_query::"
 
 
-@ob("C04.2", ["C04"], "an execution that read untracked state but completed as plain Derived is deep-verified green and never re-executed", kind="ONLYIF")
+@ob("C04.2", ["C04", "C01"], "an execution that read untracked state but completed as plain Derived is deep-verified green and never re-executed", kind="ONLYIF")
 def c04_2(cx):
     """QueryCompletion::finish builds OriginAndExtra::derived_untracked iff self.untracked_read; prepare_completion copies the flag; seed_iteration ORs it; metadata convergence compares is_derived_untracked."""
     b = cx.fn(AQ + r"QueryCompletion::finish$")
